@@ -131,6 +131,7 @@ std::string scratchInvariants(const Position& pos) {
 extern "C" int LLVMFuzzerInitialize(int* argc, char*** argv) {
     fz::rewriteArgs(argc, argv);
     ComputerPlayer::initEngine(); // what texel's main() does first (piece values, TB listeners)
+    fz::runPendingReplay();
     return 0;
 }
 
